@@ -115,7 +115,11 @@ def classify(s, s2, kind):
     except Exception:
         return "sanitize-raised", []
     if norm(a) != norm(b):
-        return "sanitised-forms-differ", sensitive_steps(s, s2, norm)
+        try:
+            steps = sensitive_steps(s, s2, norm)
+        except Exception:   # the cleaning steps were refactored: the label stays, the step names are unknown
+            steps = []
+        return "sanitised-forms-differ", steps
     return "differs-after-sanitising", []
 
 
